@@ -128,13 +128,22 @@ class PartStore:
         self.over[name] = None
 
 
+def live_tree_bytes(part) -> bytes:
+    """the in-memory tree of a parsed part, written out by lxml itself (read-only inspection;
+    not XmlPart.serialize, which is part of what is judged)"""
+    if not hasattr(part, "root"):
+        return part if isinstance(part, bytes) else part.serialize()
+    root = part.root._Element__element
+    return etree.tostring(root.getroottree(), xml_declaration=True, encoding="UTF-8")
+
+
 def read_expected(doc, store: PartStore) -> dict:
     """the in-memory document right now, as {name: canon}: the live tree for
     parts the history parsed, the stored bytes for the others"""
     exp = {}
     for n in store.names():
         if n in store.touched:
-            data = doc.get_part(n).serialize()
+            data = live_tree_bytes(doc.get_part(n))
         else:
             data = store.current(n)
         exp[n] = canon(n, data)
